@@ -86,6 +86,16 @@ func VerifC10Clean() {
 			t.repo.ProcessHeader(h.ctx, hd)
 		}
 	}
+	// every header of the constructed state was accepted; Clean alone never makes a header
+	// unknown, so all of them stay individually retrievable with their true height and status
+	acc := make([]bool, len(h.hdr))
+	for i := range acc {
+		acc[i] = true
+	}
+	all := func(int) bool { return true }
+	if len(h.hdr) > 1 {
+		h.checkLookups("constructed:", acc, all) // the construction ends with a Clean
+	}
 	for s := 0; s < steps; s++ {
 		op := pick(fmt.Sprintf("op%d", s), 2)
 		switch op {
@@ -94,6 +104,7 @@ func VerifC10Clean() {
 			h.assumeNoTie(h.record(hd, p))
 			e1 := h.repo.ProcessHeader(h.ctx, hd)
 			e2 := t.repo.ProcessHeader(h.ctx, hd)
+			acc = append(acc, e1 == nil)
 			verifAssert(errClass(e1) == errClass(e2), "verdict-differs-after-clean")
 		case 1:
 			// Clean itself must not change the status of any accepted header, however deep
@@ -118,6 +129,7 @@ func VerifC10Clean() {
 					verifAssert(h.indexOfHash(*ph) == prevBefore[i], "clean-changed-previous-hash")
 				}
 			}
+			h.checkLookups("after-clean:", acc, all)
 			verifReach("cleaned")
 			if len(h.repo.branches) > 2 {
 				verifReach("cleaned-with-3-branches")
